@@ -59,7 +59,7 @@ def cases(draw):
         ln = {"none": None, "pos": max(0, pos() - off) or 1, "small": draw(st.integers(1, 20)), "huge": size * 3 + 7, "zero": 0}[ln]
         ev = draw(st.lists(st.tuples(st.sampled_from(["w", "s"]), st.integers(0, 25), st.sampled_from(["pause", "pause", "resume", "stop"])).map(list), max_size=4))
         reads.append({"off": off, "len": ln, "events": ev})
-    return {"k": k, "n": n, "seg": seg, "size": size, "fill": draw(st.integers(0, 3)), "reads": reads, "guess": draw(st.sampled_from([None, None, 16, 50, 200, 1000])),
+    return {"threads": draw(st.sampled_from(["sync", "async"])), "k": k, "n": n, "seg": seg, "size": size, "fill": draw(st.integers(0, 3)), "reads": reads, "guess": draw(st.sampled_from([None, None, 16, 50, 200, 1000])),
             "sched": draw(st.lists(st.integers(0, 12), max_size=draw(st.sampled_from([0, 20, 100]))))}
 
 
@@ -68,6 +68,8 @@ def run_shard(spec, ctx):
 
 
 def run_case(case, ctx):
+    from vf import boot as _boot
+    _boot.set_thread_mode(case.get("threads") == "async")      # defer_to_thread answered in a later reactor turn (as in production) or synchronously
     from allmydata.immutable.upload import Data
     from allmydata.interfaces import DownloadStopped
     k, n, seg, size = case["k"], case["n"], case["seg"], case["size"]
